@@ -636,7 +636,8 @@ int ioctl(IOCTLPARAMS) {
   void* val = va_arg(args, void*);
   va_end(args);
 
-  if (!thread_locked && request == FIONBIO) {
+  if (!thread_locked && request == FIONBIO && fd_info && d >= 0 &&
+      (rlim_t)d < max_fd) {
     if (!val) {
       errno = EINVAL;
       return -1;
